@@ -83,16 +83,44 @@ def completeness_instance(run, kind):
             return
         V0 = xe.subst(ctx, [V], {base: ctx.const(0)})[0]
         run.identity(f"{tag}/acceptance-zero/{base}=0", V0, ctx.const(0)).get_model = False
-    for i in range(D + 1):
+    # D + 1 distinct points decide the polynomial; a few spare points are queried as well, because
+    # the solver occasionally does not decide one within the cap (which points are hard varies with
+    # the scripted challenges, i.e. with the seed).  All points are solved here, in parallel; the
+    # first D + 1 decided ones are kept as obligations, undecided spares are dropped (and counted).
+    import concurrent.futures as cf
+    spare = 4
+    cand = []
+    for i in range(D + 1 + spare):
         xv = 3 + 7 * i
         Vx = xe.subst(ctx, [V], {"srs0": ctx.const(xv), "srs1": ctx.const(1), "srs2": ctx.const(1)})[0]
         ob = run.identity(f"{tag}/acceptance-zero/x={xv}", Vx, ctx.const(0))
         ob.timeout = 240 if run.tier == "quick" else 900
         ob.get_model = False
-        # the second (8-row) instance is an extra of the thorough tier: a point the solver does not
-        # decide within the cap is counted under optional_undecided (the interpolation argument then
-        # does not close for that instance, which the evidence shows), it does not fail the run
         ob.optional = kind != 0
+        run.obls.remove(ob)
+        cand.append(ob)
+
+    def solve(ob):
+        ob.result = smt.check(ob.lines, ob.asserts, "z3", ob.timeout, get_model=False)
+        return ob
+    with cf.ThreadPoolExecutor(max_workers=min(16, len(cand))) as ex:
+        list(ex.map(solve, cand))
+    refuted = [ob for ob in cand if ob.result.status == "sat"]
+    decided = [ob for ob in cand if ob.result.status == "unsat"]
+    if refuted:
+        for ob in refuted:
+            ob.result = None        # solved again with a model and judged by the framework
+            ob.get_model = True
+        run.obls.extend(refuted)
+    elif len(decided) >= D + 1:
+        run.obls.extend(decided[:D + 1])
+        run.extra[f"{tag}/spare-points-undecided"] = len(cand) - len(decided)
+    else:
+        run.obls.extend(decided)
+        for ob in cand:
+            if ob.result.status not in ("unsat", "sat"):
+                ob.result = None    # one more attempt by the framework; undecided => inconclusive (or optional)
+                run.obls.append(ob)
     run.notes.append(f"{tag}: acceptance polynomial has degree <= {D} in the SRS secret x (structural bound); it is "
                      f"queried at {D + 1} distinct values of x (bases = 1) for all blinder values, and at base = 0 for each "
                      "base (degree <= 1 in each base); if every query is discharged it vanishes identically"
